@@ -91,7 +91,8 @@ Definition fx_rc (f : bool) : rcall :=
   {| rc_fo := 0; rc_wh := WStart; rc_size := (2, 1); rc_dur := DStatic 7; rc_args := 1; rc_finalized := f |}.
 Definition fx_fcase (kind : nat) obs lg fins fzs fin fe : fcase :=
   {| f_t := fx_tcase obs lg fin fe; f_kind := kind; f_size_fault := false; f_data_fault := false;
-     f_fin_ops := fins; f_fz_ops := fzs; f_closed_ops := [true; true]; f_others := []; f_fin_caller := 1 |}.
+     f_fin_ops := fins; f_fz_ops := fzs; f_closed_ops := [true; true]; f_others := []; f_fin_caller := 1;
+     f_fin_faults := []; f_gc_raised := 0; f_caller_raised := false |}.
 Definition fx_good_obs : list (out * Z) := [(OErr (ERender 1), 2); (OErr EFinalized, 2)].
 
 Example fx_oracle_discriminates :
@@ -102,4 +103,27 @@ Example fx_oracle_discriminates :
   /\ spec10_ok (fx_fcase 1 fx_good_obs [fx_rc false] [1; 1]%nat [true; true] 1%nat true) = false       (* a caller's data finalized *)
   /\ spec10_ok (fx_fcase 0 fx_good_obs [fx_rc true] [1; 1]%nat [true; true] 1%nat true) = false        (* rendered with finalized data *)
   /\ spec10_ok (fx_fcase 0 [(OErr (ERender 1), 2); (OOk, 2)] [fx_rc false] [1; 1]%nat [true; true] 1%nat true) = false. (* open after an error *)
+Proof. vm_compute. repeat split; reflexivity. Qed.
+
+(** ... and, with a finalizer scheduled to raise at its first invocation (close() is the
+    second operation), it accepts what the repaired code does and rejects: a second
+    invocation by the caller's finalize() (flag not set), a flag left unset, an iterator
+    that is not closed after the failing close() *)
+Definition fx_rcase obs fins fzs fin fe caller craised : fcase :=
+  {| f_t := {| t_n := Some 3; t_total := 5; t_faults := []; t_ffaults := []; t_stamp := false;
+               t_cfg := fx_cfg true; t_ops := [Next; Close; Next; Seek 0 WStart; Close]; t_ctor := None;
+               t_obs := obs; t_tells := [0; 0; 0; 0; 0]; t_log := [fx_rc false]; t_fin := fin; t_finalized_end := fe |};
+     f_kind := 0; f_size_fault := false; f_data_fault := false;
+     f_fin_ops := fins; f_fz_ops := fzs; f_closed_ops := [false; true; true; true; true]; f_others := [];
+     f_fin_caller := caller; f_fin_faults := [0%nat]; f_gc_raised := 0; f_caller_raised := craised |}.
+Definition fx_frame0 : out :=
+  OFrame {| f_number := 0; f_duration := 7; f_size := (2, 1); f_output := [0; 0; 2; 1; 7; 1; -1; -1]; f_pad := None |}.
+Definition fx_robs : list (out * Z) := [(fx_frame0, 2); (fin_err, 2); (OStop, 2); (OErr EFinalized, 2); (OOk, 2)].
+
+Example fx_oracle_raising_finalizer :
+  check10 (fx_rcase fx_robs [0; 1; 1; 1; 1]%nat [false; true; true; true; true] 1%nat true 1%nat false) = 0%nat
+  /\ spec10_ok (fx_rcase fx_robs [0; 1; 1; 1; 1]%nat [false; false; false; false; false] 1%nat false 2%nat true) = false
+  /\ spec10_ok (fx_rcase fx_robs [0; 1; 1; 1; 1]%nat [false; true; true; true; true] 1%nat true 2%nat false) = false
+  /\ spec10_ok (fx_rcase [(fx_frame0, 2); (fin_err, 2); (OErr (ERender (-100)), 2); (OOk, 2); (OErr (ERender (-100)), 2)]
+                         [0; 1; 1; 1; 1]%nat [false; true; true; true; true] 1%nat true 1%nat false) = false.
 Proof. vm_compute. repeat split; reflexivity. Qed.
